@@ -17,8 +17,25 @@ def rq(rng, den=(1, 2, 3, 4, 8)):
     return Fr(rng.randint(-12, 12), rng.choice(den))
 
 
+def pinned_items(chk, mpmath):
+    mp = mpmath.mp
+    for kf in [k for k in chk.known if k.get("status") == "known" and "rep" in k]:
+        rep = kf["rep"]; p = rep["p"]
+        a, b, z = Fr(rep["a"]), Fr(rep["b"]), Fr(rep["z"])
+        def call(q):
+            mp.prec = q
+            A, B, Z = mp.mpf(a.numerator) / a.denominator, mp.mpf(b.numerator) / b.denominator, mp.mpf(z.numerator) / z.denominator
+            if rep["f"] == "hyp1f1": return mp.hyp1f1(A, B, Z)
+            if rep["f"] == "hyperu": return mp.hyperu(A, B, abs(Z) + 1)
+            return mp.hyp1f2(A, B, B + 1, Z)
+        y1 = call(p); y2 = call(2 * p + 30); mp.prec = 53
+        yield ex.rel0_close(y1, y2, 8, p), {"pinned": kf["key"], "key": "samereal/%s/excess<2^6" % rep["f"], "f": rep["f"], "a": rep["a"], "b": rep["b"], "z": rep["z"], "p": p, "what": "pinned representative"}
+
+
 def gen(chk, mpmath, rng):
     mp = mpmath.mp
+    for item in pinned_items(chk, mpmath):
+        yield item
     n = chk.pick(500, 20000)
     for i in range(n):
         p = rng.choice([20, 53, 53, 100, 200, rng.randint(10, 300)])
@@ -107,7 +124,12 @@ def gen(chk, mpmath, rng):
                 y1 = call(p); y2 = call(2 * p + 30)
                 if not (oblcommon.fin(y1) and oblcommon.fin(y2)) or hasattr(y1, "_mpc_") or hasattr(y2, "_mpc_"):
                     yield None; continue
-                yield ex.rel0_close(y1, y2, 8, p), {"key": "samereal/" + f, "f": f, "a": str(a), "b": str(b), "z": str(z), "p": p,
+                # classification for reporting / known-finding keys only: by how many bits is the stated bound exceeded?
+                mp.prec = 2 * p + 60
+                exc = abs(y1 - y2) / abs(y2) / mp.mpf(2) ** (8 - p) if y2 != 0 else mp.mpf(0)
+                band = "/excess<2^6" if 1 < exc < 64 else ""
+                mp.prec = p
+                yield ex.rel0_close(y1, y2, 8, p), {"key": "samereal/" + f + band, "f": f, "a": str(a), "b": str(b), "z": str(z), "p": p,
                                                        "what": "values at precisions p and 2p+30 are not approximations of one real number"}
         except (ZeroDivisionError, ValueError, TypeError, mpmath.libmp.NoConvergence, NotImplementedError):
             yield None
